@@ -385,6 +385,13 @@ def i4(prog, ctx):
                                 break
                     k1, s1 = k, s_
     k2, s2 = key_tuple(gid)
+
+    def as_tuple(k):
+        # a record type used as key (namedtuple built from the same four components)
+        if isinstance(k, ast.Call) and isinstance(k.func, ast.Name) and k.func.id[:1].isupper() and k.args and not k.keywords:
+            return ast.Tuple(elts=list(k.args), ctx=ast.Load())
+        return k
+    k1, k2 = as_tuple(k1), as_tuple(k2)
     if not isinstance(k1, ast.Tuple) or not isinstance(k2, ast.Tuple):
         raise AnalysisError("FeatureIdStorage: key tuples not found (loader %s, lookup %s)" % (k1, k2))
     r1 = [_role(e) for e in k1.elts]
@@ -395,7 +402,15 @@ def i4(prog, ctx):
     else:
         ctx.ok("I4", "%s:%d" % (IDP, s2.lineno), "exon-id key (chr,start,end,strand) on both sides: %s / %s" % (src(k1), src(k2)))
     # reference ids are stored verbatim
-    if s1 is not None and not re.search(r"\.attributes\[\w+\]", src(s1.value)):
+    s1v = src(s1.value) if s1 is not None else ""
+    if s1 is not None and isinstance(s1.value, (ast.Name, ast.Subscript)):
+        # through a local alias:  ids = f.attributes[id_attribute]; ... = ids[0]
+        base_ = s1.value.value if isinstance(s1.value, ast.Subscript) else s1.value
+        if isinstance(base_, ast.Name):
+            ds_ = [a_.value for a_ in walk_no_nested(init) if isinstance(a_, ast.Assign) and len(a_.targets) == 1 and src(a_.targets[0]) == base_.id]
+            if len(ds_) == 1:
+                s1v = s1v.replace(base_.id, src(ds_[0]), 1)
+    if s1 is not None and not re.search(r"\.attributes\[\w+\]", s1v):
         ctx.fail("I4", s1, "FeatureIdStorage.__init__", src(s1), "reference exon ids are not stored verbatim from the attribute")
     else:
         ctx.ok("I4", "%s:%d" % (IDP, s1.lineno), "reference exon_id attribute stored verbatim")
@@ -436,10 +451,23 @@ def i4_callers(prog, ctx):
                     and "id_storage" in src(c.func.value) and len(c.args) in (3, 4)):
                 continue
             n += 1
-            a_chr, a_strand = c.args[0], c.args[-1]
-            a_feat = c.args[1] if len(c.args) == 3 else ast.Tuple(elts=list(c.args[1:-1]), ctx=ast.Load())
-            if len(c.args) == 4:
-                a_feat._parent = c
+            # arguments by parameter name of the storage's lookup method (positions may have been reordered)
+            from ..engine import argswap
+            gdef = prog.try_func(IDP, "FeatureIdStorage.get_id")
+            bound = argswap.bind_args(c, gdef, bound_method=True) if gdef is not None else {}
+            b_chr = next((v for k, v in bound.items() if "chr" in k), None)
+            b_strand = next((v for k, v in bound.items() if "strand" in k), None)
+            b_feat = [v for k, v in bound.items() if "chr" not in k and "strand" not in k]
+            if b_chr is not None and b_strand is not None and b_feat and len(bound) == len(c.args) + len(c.keywords):
+                a_chr, a_strand = b_chr, b_strand
+                a_feat = b_feat[0] if len(b_feat) == 1 else ast.Tuple(elts=b_feat, ctx=ast.Load())
+                if len(b_feat) != 1:
+                    a_feat._parent = c
+            else:
+                a_chr, a_strand = c.args[0], c.args[-1]
+                a_feat = c.args[1] if len(c.args) == 3 else ast.Tuple(elts=list(c.args[1:-1]), ctx=ast.Load())
+                if len(c.args) == 4:
+                    a_feat._parent = c
 
             def unalias(e):
                 if isinstance(e, ast.Name):
@@ -510,8 +538,12 @@ def i6(prog, ctx):
     cls = prog.cls(IDP, "FeatureIdStorage")
     n = 0
     for name_, f in sorted(prog.methods_of(cls, inherited=False).items()):
+        from ..engine.dataflow import single_def_env
+        from ..engine import symexec as _sx
+        senv = single_def_env(f)
         for st in walk_no_nested(f):
-            if not (isinstance(st, ast.Assign) and isinstance(st.targets[0], ast.Subscript) and re.search(r"\.attributes\[\w+\]", src(st.value))):
+            if not (isinstance(st, ast.Assign) and isinstance(st.targets[0], ast.Subscript)
+                    and (re.search(r"\.attributes\[", src(st.value)) or re.search(r"\.attributes\[", src(_sx.subst(st.value, senv))))):   # (through local aliases)
                 continue
             loops = [l for l in flow.enclosing_loops(st) if isinstance(l, (ast.For, ast.While))]
             if not loops:
@@ -528,7 +560,17 @@ def i6(prog, ctx):
                         continue
                     bad = (x, "the loop over the annotation records can stop early (%s): the ids of all later exons of the chromosome are never "
                               "registered and those exons are printed with generated ids" % type(x).__name__.lower())
-            absent = re.compile(r"^\w+ (not )?in \w+\.attributes$")
+            absent_re = re.compile(r"^\w+ (not )?in \w+\.attributes$")
+
+            class _AbsentOrEmpty:
+                # presence of the attribute, or non-emptiness of its value list (same cases the try/except IndexError form skips)
+                @staticmethod
+                def match(text):
+                    if absent_re.match(text):
+                        return True
+                    t2 = src(_sx.subst(ast.parse(text, mode="eval").body, senv))
+                    return bool(re.match(r"^(len\()?\w+\.attributes\[.*\]\)?( > 0| != 0| >= 1)?$", t2))
+            absent = _AbsentOrEmpty
             for g in flow.guards_of(st, stop=loop):
                 if not absent.match(src(g.test)):
                     bad = bad or (st, "the id is registered only under %s%s, which is not a test for the presence of the id attribute"
